@@ -494,6 +494,12 @@ func c03prop(ev *evid.Rec) func(rt *rapid.T) {
 			if r := sentinel.Request(hlref.TranGetUserNameList); !okReply(r) {
 				rt.Fatalf("sentinel got no user list reply while hostile connections were active: %s", desc)
 			}
+			// what an administrator does with a misbehaving user: look at it.  The answer may say anything; it must arrive.
+			for id := 1; id <= ngood+nhost+2; id++ {
+				if r := sentinel.Request(hlref.TranGetClientInfoText, fld(hlref.FUserID, hlref.BE16(id))); r == nil {
+					rt.Fatalf("sentinel got no reply to a get-client-info request about user %d while hostile connections were active (sentinel disconnected: %v): %s", id, sentinel.EOF(), desc)
+				}
+			}
 			for i, g := range good {
 				if g.EOF() {
 					rt.Fatalf("well-behaved client %d was disconnected by hostile input on other connections: %s", i, desc)
